@@ -5,12 +5,12 @@ ID = 'C11'
 RULE = ('one case = a real datacake_node::Clock actor on a multi-threaded tokio runtime with the wall clock injected (hook H1), and 1-6 phases; in each phase the wall reading is fixed '
         '(advanced, stalled, or moved BACKWARDS between phases) and 1-32 tasks concurrently make 1-200 calls each, mixing get_time with register_ts of remote stamps around the wall '
         '(behind, at, within/at/beyond the drift); the processed-event log recorded by hook H3 (kind, input, clock after) is replayed event by event through the Lean model (clk-replay), '
-        'plus burst cases: a fresh clock on a current-thread runtime with a backlog of 0..2500 enqueued get_time requests (around the queue capacity 1000) when a remote stamp is registered; high-counter cases: a remote stamp ahead of the wall with counter 65000..65530 (the actor\'s back-pressure region) followed by 1-3 requests; real nodes (realclock): a stamp registered with the clock of one node, then - all logical clocks pinned ahead of the wall - thousands of stamps that differ only in the counter, must become visible through gossip to the clock every other node hands out; ' 'and the python oracle checks the property on what the callers saw: all replies pairwise distinct, each task strictly increasing, every get_time after an accepted register_ts greater than it; '
+        'plus burst cases: a fresh clock on a current-thread runtime with a backlog of 0..2500 enqueued get_time requests (around the queue capacity 1000) when a remote stamp is registered; high-counter cases: remote stamps ahead of the wall (up to exactly the drift limit) with counter 65000..65535 - the back-pressure region and the EXHAUSTED counter - each followed by 1-12 requests, enough to run the clock\'s own counter over u16::MAX (D19); real nodes (realclock): a stamp registered with the clock of one node, then - all logical clocks pinned ahead of the wall - thousands of stamps that differ only in the counter, must become visible through gossip to the clock every other node hands out; ' 'and the python oracle checks the property on what the callers saw: all replies pairwise distinct, each task strictly increasing, every get_time after an accepted register_ts greater than it; '
         'non-trivial = at least 2 tasks and at least one accepted registration; distinct by hash')
 ASSUMPTIONS = ['flume channel is FIFO with a single consumer; a oneshot reply reaches the caller that asked (runtime facts, observed here, not proved)',
                'wall clock injected and constant within a phase, so that the log can be replayed exactly']
 TRUSTED_BASE = ['correspondence: dcharness (real Clock actor, 2 worker threads) vs dcdriver (Datacake.Ts.send/recv folded over the actor log); hooks H1 (wall clock) and H3 (clock event log)']
-THEOREM_NOTE = 'Datacake.Ts.send/recv as the actor step (Model/Timestamp.lean); theorems replies_strictly_increasing, per_task_increasing, after_register_greater'
+THEOREM_NOTE = 'Datacake.Clock.onGet/onRegister/run (Model/Clock.lean) over Datacake.Ts.send/recv; theorems replies_strictly_increasing, per_task_increasing, after_register_greater, legacy_drops_registration'
 PROCESS_PER_CASE = False
 JOBS = 4
 SHRINK = False
@@ -48,19 +48,26 @@ def gen_burst(rng, idx):
 
 
 def gen_high(rng, idx):
-    """a remote stamp whose counter is in the actor's back-pressure region (>= u16::MAX - 10) while the logical time is ahead of
-    the wall clock, then a few requests (few enough that the counter cannot overflow: the actor stops by design when it does)"""
+    """remote stamps whose counter is in the actor's back-pressure region or EXHAUSTED (u16::MAX), while the logical time is ahead
+    of the wall clock, each followed by enough requests to run the clock's own counter over u16::MAX as well (D19: the actor used
+    to drop such a registration and to stop at the overflow; it now carries on with the next instant)"""
     base = 117_000_000_000 + rng.below(10 ** 6) * 4
     node_id = rng.below(3)
     lines = ['case %d node' % idx, 'clk-init %d %d' % (node_id, base)]
     wall = base
     if rng.chance(1, 2):
         lines.append('clk-phase %d %d %d %d 0' % (wall, rng.range(1, 3), rng.range(1, 6), rng.below(1 << 40)))
-    # exactly one per case: a second one could meet the first one's logical time and push the counter over u16::MAX
-    # (`send` then fails and the actor stops - by design, outside the property)
-    ctr = rng.choice([65000, 65520, 65524, 65525, 65526, 65527, 65529, 65530])
-    off = rng.choice([0, 4, 1000, 60000, 4_000_000])
-    lines.append('clk-high %d %d %d %d' % (wall, ctr, off, rng.range(1, 3)))
+    for _ in range(rng.range(1, 3)):
+        ctr = rng.choice([65000, 65520, 65524, 65525, 65526, 65527, 65529, 65530, 65533, 65534, 65535, 65535])
+        off = rng.choice([0, 4, 1000, 60000, 4_000_000, DRIFT_MS - 4, DRIFT_MS])
+        gets = rng.range(1, 12)
+        if off == DRIFT_MS:
+            # a clock pinned exactly AT the drift limit cannot carry on with the next instant (C09: never more than the drift
+            # ahead): when its counter values are used up before the wall clock moves 4 ms the actor stops - kept out of the cases
+            gets = max(0, min(gets, 65535 - ctr - 1))
+        lines.append('clk-high %d %d %d %d' % (wall, ctr, off, gets))
+        if off == DRIFT_MS: break
+        if rng.chance(1, 2): wall += rng.choice([4, 1000])
     lines += ['clk-done', 'end']
     return lines
 
@@ -126,9 +133,10 @@ def oracle(case, impl):
                     for r in regs:
                         if not val > r: bad.append('%s: task %d got %d after registering %d' % (t[0], ti, val, r))
                 else:
-                    # a remote stamp is accepted when it is from another node, within the drift and its counter leaves room
-                    # (clk-high keeps the counter below the overflow by construction: ctr + 1 + gets <= u16::MAX)
-                    if node(val) != own and dts(val) <= wall + DRIFT_MS and (counter(val) < 65000 or t[0] == 'clk-high'):
+                    # the property: every stamp requested after a remote stamp was registered is greater, unless the remote was
+                    # beyond the allowed drift (own-node stamps are not remote).  One corner is unsatisfiable together with C09's
+                    # drift bound and excluded: a remote exactly AT the limit with no counter value left above it.
+                    if node(val) != own and (dts(val) + 4 <= wall + DRIFT_MS or (dts(val) <= wall + DRIFT_MS and counter(val) < 65000)):
                         regs.append(val)
     return bad
 
